@@ -42,6 +42,7 @@ func fullProfile0(t *tape.Tape, flagCount uint32) app.Profile {
 		RelTargets: true, EndNodes: t.Chance(1, 2), Translations: t.Chance(1, 3),
 		MultiRowTpl: true, MaxRows: 10, EmptyRows: t.Chance(1, 2), CatchShape: -1,
 		ExtLang: t.Chance(1, 4),
+		Unicode: t.Chance(1, 3),
 	}
 }
 
@@ -67,8 +68,8 @@ func genCfg(t *tape.Tape) world.Cfg {
 	case 2:
 		c.CacheSize = uint32(t.Range(200, 100000))
 	}
-	c.FlagCount = uint32([]int{0, 1, 3, 8, 9, 40}[t.Int(6)])
-	c.MenuSep = []string{"", ". ", ")", " - "}[t.Weighted(3, 1, 1, 1)]
+	c.FlagCount = uint32([]int{0, 1, 3, 8, 9, 40, 300}[t.Weighted(4, 4, 4, 4, 4, 4, 1)])
+	c.MenuSep = []string{"", ". ", ")", " - ", " · ", "→"}[t.Weighted(6, 2, 2, 2, 1, 1)]
 	c.Language = []string{"", "", "nor", "eng"}[t.Int(4)]
 	return c
 }
@@ -174,9 +175,19 @@ func scenario(w *world.World, extra map[string]interface{}) map[string]interface
 
 func finish(o *core.Outcome, ws ...*world.World) *core.Outcome {
 	var h uint64 = 1
+	fired := map[string]int{}
 	for _, w := range ws {
 		h = h64(h, w.Rec.Hash())
 		o.Counts["sim_ticks"] += w.Rec.Ticks()
+		for k, v := range w.Fired {
+			fired[k] += v
+		}
+	}
+	// fault kinds the check did not count itself are taken from what the worlds saw reach the library
+	for k, v := range fired {
+		if o.Faults[k] == 0 {
+			o.Faults[k] = v
+		}
 	}
 	o.TraceHash = h
 	return o
@@ -202,4 +213,43 @@ func errKey(e string) string {
 		}
 	}
 	return sb.String()
+}
+
+// deepApp is a well-formed application whose two inner nodes descend into each other, so that
+// a client can make the navigation stack as deep as it likes: "1" descends, "0" ascends,
+// "9" rewinds, "5" repeats the node. withLoad puts a small loaded value on every level.
+func deepApp(t *tape.Tape) *app.App {
+	t.Begin("deepapp")
+	defer t.End()
+	a := &app.App{Root: "root", Labels: map[string]map[string]string{}}
+	withLoad := t.Chance(1, 2)
+	pre := func(name string) ([]app.Inst, string) {
+		tpl := "@" + name + "|deep"
+		var code []app.Inst
+		if withLoad {
+			code = append(code, app.Inst{Op: app.LOAD, A: "dv", N: 8}, app.Inst{Op: app.MAP, A: "dv"})
+			tpl += " dv=[{{.dv}}]"
+		}
+		return append(code, app.Inst{Op: app.HALT}), tpl + "$"
+	}
+	if withLoad {
+		a.Ext = append(a.Ext, &app.ExtSym{Name: "dv", Size: 8, Script: []app.ExtBehav{{Len: -1}}})
+	}
+	for _, n := range []struct{ name, down string }{{"root", "na"}, {"na", "nb"}, {"nb", "na"}} {
+		code, tpl := pre(n.name)
+		code = append(code, app.Inst{Op: app.INCMP, A: n.down, B: "1"})
+		if n.name != "root" {
+			code = append(code, app.Inst{Op: app.INCMP, A: "_", B: "0"}, app.Inst{Op: app.INCMP, A: "^", B: "9"})
+		}
+		code = append(code, app.Inst{Op: app.INCMP, A: ".", B: "5"})
+		a.Nodes = append(a.Nodes, &app.Node{Name: n.name, Kind: app.KMenu, Code: code, Tpl: map[string]string{"": tpl}})
+	}
+	c := &app.Node{Name: "_catch", Kind: app.KCatch, Tpl: map[string]string{"": "@_catch|oops$"}}
+	c.Code = [][]app.Inst{
+		{{Op: app.HALT}, {Op: app.MOVE, A: "_"}},
+		{{Op: app.HALT}, {Op: app.INCMP, A: "_", B: "*"}},
+	}[t.Int(2)]
+	a.Nodes = append(a.Nodes, c)
+	a.Index()
+	return a
 }
